@@ -132,3 +132,111 @@ Section RaceConc.
     apply andb_true_iff in T as [Tm _]. exact Tm.
   Qed.
 End RaceConc.
+
+(* ---- whole runs: the trace of any run of the machine, read as a trace of Race.v, has every slot
+   access inside a critical section of that slot's lock (opened by the event just before it, by the
+   same thread) ---- *)
+Section RunDiscipline.
+  Variable g : gelem.
+
+  (* slot (b, i) as a lock / location identifier of Race.v *)
+  Variable slot_id : nat -> nat -> nat.
+
+  Definition sev_of (e : cev) : sev :=
+    match e with
+    | CReadLock b i => EAcq (slot_id b i) false
+    | CReadUnlock b i => ERel (slot_id b i) false
+    | CWriteLock b i => EAcq (slot_id b i) true
+    | CWriteUnlock b i => ERel (slot_id b i) true
+    | CAccess b i => EAcc (slot_id b i)
+    | CRmw _ => ERmw true true
+    | CFree _ => EFree
+    | CAlloc _ | CDataLock _ _ | CDataUnlock _ _ => ERmw false false      (* not part of the slot protocol *)
+    end.
+  Definition strace_of (tr : list (nat * cev)) : strace := map (fun x => (fst x, sev_of (snd x))) tr.
+
+  (* on a flat trace: a slot access directly follows the lock request for that slot by the same thread *)
+  Fixpoint flat_ok (prev : option (nat * nat * nat)) (tr : list (nat * cev)) : bool :=
+    match tr with
+    | [] => true
+    | (t, CAccess b i) :: r =>
+        match prev with
+        | Some (t', b', i') => Nat.eqb t t' && Nat.eqb b b' && Nat.eqb i i' && flat_ok None r
+        | None => false
+        end
+    | (t, CReadLock b i) :: r | (t, CWriteLock b i) :: r => flat_ok (Some (t, b, i)) r
+    | _ :: r => flat_ok None r
+    end.
+
+  Lemma flat_ok_any_prev : forall tr prev, flat_ok None tr = true -> flat_ok prev tr = true.
+  Proof. intros [|[t e] r] prev H; [reflexivity|]. destruct e; cbn [flat_ok] in *; try exact H. discriminate. Qed.
+
+  Lemma flat_ok_app : forall a b prev, flat_ok prev a = true -> flat_ok None b = true -> flat_ok prev (a ++ b) = true.
+  Proof.
+    induction a as [|[t e] a IH]; intros b prev Ha Hb; cbn [app]; [apply flat_ok_any_prev; exact Hb|].
+    destruct e; cbn [flat_ok] in *; try (apply IH; assumption).
+    destruct prev as [[[t' b'] i']|]; [|discriminate].
+    apply andb_true_iff in Ha as [Ha1 Ha2]. rewrite Ha1. cbn [andb]. apply IH; assumption.
+  Qed.
+
+  Lemma flat_ok_step tid : forall evs prev,
+    acc_ok_from (option_map (fun x => (snd (fst x), snd x)) prev) evs = true ->
+    (match prev with Some (t, _, _) => t = tid | None => True end) ->
+    flat_ok prev (map (fun e => (tid, e)) evs) = true.
+  Proof.
+    induction evs as [|e r IH]; intros prev H Ht; cbn [map]; [reflexivity|].
+    destruct e; cbn [flat_ok acc_ok_from] in *;
+      try (apply (IH None); [exact H|exact Logic.I]);
+      try (apply (IH (Some (tid, block, slot))); [exact H|reflexivity]).
+    destruct prev as [[[t' b'] i']|]; cbn [option_map fst snd] in H; [|discriminate].
+    subst t'. rewrite Nat.eqb_refl. cbn [andb].
+    apply andb_true_iff in H as [H1 H2]. rewrite H1. cbn [andb]. apply (IH None); [exact H2|exact Logic.I].
+  Qed.
+
+  Theorem run_accesses_under_lock progs : forall fuel s sched rr,
+    Reach g progs s -> flat_ok None (snd (crun g fuel s sched rr)) = true.
+  Proof.
+    induction fuel as [|f IH]; intros s sched rr R; cbn [crun]; [reflexivity|].
+    destruct (all_done s); [reflexivity|].
+    destruct (match sched with w :: r => (w, r) | [] => (rr, []) end) as [want sched'].
+    destruct (cstep g s want) as [[[s' tid] evs]|] eqn:C; [|reflexivity].
+    assert (A := machine_accesses_under_lock g progs s want s' tid evs R C).
+    specialize (IH s' sched' (S tid) (Reach_step g _ _ _ _ _ _ R C)).
+    destruct (crun g f s' sched' (S tid)) as [sf tr]. cbn [snd] in *.
+    apply flat_ok_app; [|exact IH]. apply (flat_ok_step tid evs None); [exact A|exact Logic.I].
+  Qed.
+
+  (* what flat_ok means in the vocabulary of Race.v: every access event of the run is inside a critical
+     section (in the sense of [inside]) of the lock with the same identifier, opened by the same thread
+     with the event just before it *)
+  Theorem flat_ok_inside : forall tr prev k t x,
+    flat_ok prev tr = true ->
+    nth_error (strace_of tr) k = Some (t, EAcc x) ->
+    match k with
+    | O => exists b i, prev = Some (t, b, i) /\ x = slot_id b i
+    | S k' => exists w, inside (strace_of tr) t x w k' k
+    end.
+  Proof.
+    induction tr as [|[t0 e] r IH]; intros prev k t x F N; [destruct k; discriminate|].
+    destruct k as [|k'].
+    - cbn [strace_of map nth_error fst snd] in N. injection N as <- E. destruct e; cbn [sev_of] in E; try discriminate.
+      injection E as <-. cbn [flat_ok] in F. destruct prev as [[[t' b'] i']|]; [|discriminate].
+      apply andb_true_iff in F as [F1 _]. apply andb_true_iff in F1 as [F1 F3]. apply andb_true_iff in F1 as [F1 F2].
+      apply Nat.eqb_eq in F1, F2, F3. subst. eauto.
+    - cbn [strace_of map nth_error] in N. fold (strace_of r) in N.
+      assert (Fr : exists prev', flat_ok prev' r = true /\
+                   (forall b i, prev' = Some (t, b, i) -> exists w : bool, e = (if w then CWriteLock b i else CReadLock b i) /\ t0 = t)).
+      { destruct e; cbn [flat_ok] in F;
+          try (exists None; split; [exact F|intros; discriminate]).
+        - exists (Some (t0, block, slot)). split; [exact F|]. intros b i [= <- <- <-]. exists false. auto.
+        - exists (Some (t0, block, slot)). split; [exact F|]. intros b i [= <- <- <-]. exists true. auto.
+        - destruct prev as [[[t' b'] i']|]; [|discriminate]. apply andb_true_iff in F as [_ F]. exists None. split; [exact F|intros; discriminate]. }
+      destruct Fr as (prev' & Fr & Hp). specialize (IH prev' k' t x Fr N).
+      destruct k' as [|k''].
+      + destruct IH as (b & i & -> & ->). destruct (Hp b i eq_refl) as (w & -> & ->).
+        exists w. unfold inside, at_. split; [lia|]. split; [cbn [strace_of map nth_error fst snd]; destruct w; reflexivity|].
+        intros r0 w' H1 H2. lia.
+      + destruct IH as (w & Hlt & Ha & Hn). exists w. unfold inside, at_ in *. split; [lia|]. split; [exact Ha|].
+        intros r0 w' H1 H2. destruct r0 as [|r0']; [lia|]. cbn [strace_of map nth_error]. apply Hn; lia.
+  Qed.
+End RunDiscipline.
